@@ -1138,7 +1138,9 @@ per_kernel!(svr_t, svr_k);
 // clustering and decomposition
 // ------------------------------------------------------------------------------------------------
 fn kmeans_t<T: Num>(c: &mut Case, sc: &Scen) {
-    let k = c.rng.us(2, 3.min(sc.n / 2).max(2));
+    // usually 2..3 clusters; sometimes as many clusters as rows (the rows of these scenarios are pairwise distinct)
+    let k = if c.rng.bool(0.12) { sc.n } else { c.rng.us(2, 3.min(sc.n / 2).max(2)) };
+    c.bucket_if(k == sc.n, "kmeans:k=n");
     // iteration limits down to a single pass (and passes that cannot converge) are ordinary settings
     let max_iter = *c.rng.pick(&[1usize, 1, 2, 3, 100]);
     c.bucket(&format!("kmeans:max_iter={}", max_iter));
